@@ -520,7 +520,11 @@ func c13DrawDoc(rt *rapid.T, corp *gen.Corpus) c13Doc {
 	case 8:
 		if rapid.Bool().Draw(rt, "graphModel") {
 			// graph-profile models (tuple-to-userset targets resolve) carrying one of the recurring ids
-			pm := gen.GraphModel(rt, gen.GraphOpts{MultiThis: true, SmallModels: rapid.Bool().Draw(rt, "small"), Scale: true, SparseMeta: true}).Proto()
+			gm := gen.GraphModel(rt, gen.GraphOpts{MultiThis: true, SmallModels: rapid.Bool().Draw(rt, "small"), SparseMeta: true})
+			if rapid.Bool().Draw(rt, "scaled") {
+				gen.InflateGraph(rt, gm) // counts around 8, 16, 32 along one dimension (long restriction lists, many parents, ...)
+			}
+			pm := gm.Proto()
 			pm.Id = rapid.SampledFrom([]string{"", "01HVMMBCMGZNT3SED4Z17ECXCA", "01HVMMBCMGZNT3SED4Z17ECXCB"}).Draw(rt, "modelID")
 			js, _ := protojson.Marshal(pm)
 			return c13Doc{Kind: "json", Text: string(js)}
